@@ -275,6 +275,11 @@ func (f *Facts) transferBlock(b *ssa.BasicBlock, cur *pstate, stop ssa.Instructi
 			if a, ok := x.Addr.(*ssa.Alloc); ok && f.cells[a] && f.keepBind(a) {
 				cur.bind[a] = resolve(cur, x.Val)
 			}
+			if _, ok := x.Addr.(*ssa.FieldAddr); ok {
+				if l := "store:" + f.tr.term(cur, x.Addr, 0) + "=" + f.tr.term(cur, x.Val, 0); f.keepLit(l) {
+					cur.lits[l] = true
+				}
+			}
 		case *ssa.UnOp:
 			if x.Op == token.MUL {
 				if a, ok := x.X.(*ssa.Alloc); ok && f.cells[a] {
@@ -683,7 +688,7 @@ func allHave(states []*pstate, re *regexp.Regexp) (bool, string) {
 func guardLits(s *pstate) []string {
 	var out []string
 	for _, l := range s.Lits() {
-		if strings.HasPrefix(l, "call:") || strings.HasPrefix(l, "called:") || strings.HasPrefix(l, "defer:") || strings.HasPrefix(l, "go:") || strings.HasPrefix(l, "recv:") {
+		if strings.HasPrefix(l, "call:") || strings.HasPrefix(l, "called:") || strings.HasPrefix(l, "defer:") || strings.HasPrefix(l, "go:") || strings.HasPrefix(l, "recv:") || strings.HasPrefix(l, "store:") {
 			continue
 		}
 		out = append(out, l)
